@@ -42,8 +42,9 @@ type Contract struct {
 	Decreases  *Clause
 	Kinds      []string // extra obligation kinds enabled for this function (e.g. nil)
 	InlineOnly bool     // never use this contract at call sites (function is inlined)
-	Assigns    []string // component patterns this function may write (overrides inferred mod set)
+	Assigns    []*Clause // locations this function may write: x[*], p.f, p.*, result[*] ...
 	HasAssigns bool
+	Reveal     map[string]bool // opaque spec functions whose definitions are visible in this contract's obligations
 	NoPanic    bool // callers may assume the function does not panic under its preconditions (always true once verified)
 	File       string
 	Line       int
@@ -51,6 +52,7 @@ type Contract struct {
 }
 
 type SpecFunc struct {
+	Opaque bool
 	Name   string
 	Params []SpecParam
 	Ret    string
@@ -61,18 +63,26 @@ type SpecFunc struct {
 
 type SpecParam struct{ Name, Type string }
 
+type LemmaStep struct {
+	Kind  string // requires | ensures | let
+	C     *Clause
+	Names []string // let: bound names
+}
+
 type Lemma struct {
 	Name     string
 	Pkg      string
 	Vars     []SpecParam
 	Requires []*Clause
 	Ensures  []*Clause
+	Steps    []LemmaStep
+	Reveal   map[string]bool
 	File     string
 	Line     int
 }
 
 var reLoop = regexp.MustCompile(`^loop\s+(\d+)\s*:\s*(invariant|decreases)\s+(.*)$`)
-var rePure = regexp.MustCompile(`^pure\s+([A-Za-z_][A-Za-z0-9_]*)\s*\(([^)]*)\)\s*([A-Za-z0-9_\[\]\.\*]+)\s*=\s*(.*)$`)
+var rePure = regexp.MustCompile(`^pure\s+(?:(opaque)\s+)?([A-Za-z_][A-Za-z0-9_]*)\s*\(([^)]*)\)\s*([A-Za-z0-9_\[\]\.\*]+)\s*=\s*(.*)$`)
 var reSmtFun = regexp.MustCompile(`^smtfun\s+([A-Za-z_][A-Za-z0-9_]*)\s*\(([^)]*)\)\s*([A-Za-z0-9_\[\]\.]+)\s*$`)
 
 func parseParams(s string) []SpecParam {
@@ -184,8 +194,8 @@ func (e *Env) loadContractFile(path string) error {
 			if m == nil {
 				return fmt.Errorf("%s:%d: malformed pure declaration", rel, lineNo)
 			}
-			sf := &SpecFunc{Name: m[1], Params: parseParams(m[2]), Ret: m[3], Pkg: pkg}
-			cl := mkClause(m[4])
+			sf := &SpecFunc{Name: m[2], Params: parseParams(m[3]), Ret: m[4], Pkg: pkg, Opaque: m[1] == "opaque"}
+			cl := mkClause(m[5])
 			last = cl
 			all = append(all, cl)
 			sfc := sf
@@ -224,6 +234,7 @@ func (e *Env) loadContractFile(path string) error {
 					cur.Requires = append(cur.Requires, cl)
 				} else {
 					lem.Requires = append(lem.Requires, cl)
+					lem.Steps = append(lem.Steps, LemmaStep{Kind: "requires", C: cl})
 				}
 			case "ensures":
 				cl := mkClause(rest)
@@ -233,10 +244,11 @@ func (e *Env) loadContractFile(path string) error {
 					cur.Ensures = append(cur.Ensures, cl)
 				} else {
 					lem.Ensures = append(lem.Ensures, cl)
+					lem.Steps = append(lem.Steps, LemmaStep{Kind: "ensures", C: cl})
 				}
-			case "forall":
+			case "vars":
 				if lem == nil {
-					return fmt.Errorf("%s:%d: forall only in lemma blocks", rel, lineNo)
+					return fmt.Errorf("%s:%d: vars only in lemma blocks", rel, lineNo)
 				}
 				lem.Vars = append(lem.Vars, parseParams(rest)...)
 				last = nil
@@ -250,6 +262,43 @@ func (e *Env) loadContractFile(path string) error {
 			case "kinds":
 				cur.Kinds = append(cur.Kinds, strings.Fields(strings.ReplaceAll(rest, ",", " "))...)
 				last = nil
+			case "let":
+				if lem == nil {
+					return fmt.Errorf("%s:%d: let only in lemma blocks", rel, lineNo)
+				}
+				i := strings.Index(rest, ":=")
+				if i < 0 {
+					return fmt.Errorf("%s:%d: malformed let", rel, lineNo)
+				}
+				var names []string
+				for _, n := range strings.Split(rest[:i], ",") {
+					names = append(names, strings.TrimSpace(n))
+				}
+				cl := mkClause(strings.TrimSpace(rest[i+2:]))
+				all = append(all, cl)
+				last = cl
+				lem.Steps = append(lem.Steps, LemmaStep{Kind: "let", C: cl, Names: names})
+			case "reveal":
+				rv := map[string]bool{}
+				for _, n := range strings.Fields(strings.ReplaceAll(rest, ",", " ")) {
+					rv[n] = true
+				}
+				if cur != nil {
+					if cur.Reveal == nil {
+						cur.Reveal = map[string]bool{}
+					}
+					for k := range rv {
+						cur.Reveal[k] = true
+					}
+				} else {
+					if lem.Reveal == nil {
+						lem.Reveal = map[string]bool{}
+					}
+					for k := range rv {
+						lem.Reveal[k] = true
+					}
+				}
+				last = nil
 			case "inline":
 				cur.InlineOnly = true
 				last = nil
@@ -257,7 +306,9 @@ func (e *Env) loadContractFile(path string) error {
 				cur.HasAssigns = true
 				for _, a := range strings.Split(rest, ",") {
 					if a = strings.TrimSpace(a); a != "" && a != "nothing" {
-						cur.Assigns = append(cur.Assigns, a)
+						cl := mkClause(a)
+						all = append(all, cl)
+						cur.Assigns = append(cur.Assigns, cl)
 					}
 				}
 				last = nil
